@@ -730,8 +730,8 @@ example : (w0.run hist0).1.env.dfltVals.map Val.mutIds = [[0, 1]] ∧
 `A.__from__({}, Options(ignore_required=True))`; `A(n=1)`; declare `Sub(A)` with `case_insensitive`; `A()` fails
 (required `n` absent) exactly as it would have before anything happened -/
 def sub0 : Decl := { kind := .schema, ci := true, fields := [
-    { name := "a", ty := .bare .list, dflt := .val dfl0, own := false },
-    { name := "n", ty := .int, dflt := .none, own := false }] }
+    { name := "a", ty := .bare .list, dflt := .val dfl0 },
+    { name := "n", ty := .int, dflt := .none }] }
 def hist1 : List Op :=
   [.call 0 0 1 (.node 2 .dict [] []) { ignoreRequired := true }, .call 0 0 1 in0',
    .declare sub0 0, .call 0 0 1 (.node 16 .dict [] [])]
